@@ -137,11 +137,16 @@ def gen_case(tp, tier):
             cname = tp.choice(['StartUp', 'ServerTree'])
             for _ in range(2 + tp.draw(4)):        # a burst on one registry
                 k = tp.draw(4)
+                scope = tp.choice(['all', 'all', 'default', 'srv']) \
+                    if cname == 'ServerTree' else 'all'
                 if k < 2:
-                    ops.append(['sa', cname, 'add', nact])
-                    nact += 1
+                    # (now and then an action that is already registered,
+                    # possibly for another scope)
+                    aid = tp.draw(nact) if nact and tp.draw(3) == 0 else nact
+                    ops.append(['sa', cname, 'add', aid, scope])
+                    nact = max(nact, aid + 1)
                 elif k == 2 and nact:
-                    ops.append(['sa', cname, 'remove', tp.draw(nact)])
+                    ops.append(['sa', cname, 'remove', tp.draw(nact), scope])
                 else:
                     ops.append(['sa', cname, 'run', 0])
             ops.append(['sa', cname, 'run', 0])
@@ -712,37 +717,52 @@ def run_case(case, tape, ctx):
             if ok and op[4] is not None and op[4][0] != 'dup':
                 ok = send_probe()
         elif kind == 'sa':
-            _, cname, what, aid = op
+            _, cname, what, aid = op[:4]
+            scope = op[4] if len(op) > 4 else 'all'
             cls = getattr(sac, cname)
             key = (cname, aid)
+            skey = ssrv.Server.default if scope == 'srv' else scope
             if what == 'add':
                 if key not in sa_funcs:
                     if cname == 'StartUp':
                         sa_funcs[key] = (lambda key=key:
                                          sa_calls.append(key))
                     else:
-                        sa_funcs[key] = (lambda server, key=key:
-                                         sa_calls.append(key))
+                        # one function may be registered for several scopes,
+                        # each registration with its own arguments
+                        sa_funcs[key] = (lambda server, tag='all', key=key:
+                                         sa_calls.append(
+                                             key if tag == 'all'
+                                             else key + (tag,)))
                 if cname == 'StartUp':
                     cls.add(sa_funcs[key])
+                    sa_model[cname][key] = True
                 else:
-                    cls.add('all', sa_funcs[key])
-                sa_model[cname][key] = True
+                    cls.add(skey, sa_funcs[key], scope)
+                    sa_model[cname].setdefault(scope, {})[key] = True
+                    if scope != 'all':
+                        bump('server-action-scoped')
             elif what == 'remove':
                 if key not in sa_funcs:
                     continue
                 if cname == 'StartUp':
                     cls.remove(sa_funcs[key])
+                    sa_model[cname].pop(key, None)
                 else:
-                    cls.remove('all', sa_funcs[key])
-                sa_model[cname].pop(key, None)
+                    cls.remove(skey, sa_funcs[key])
+                    sa_model[cname].get(scope, {}).pop(key, None)
             else:
                 del sa_calls[:]
                 if cname == 'StartUp':
                     cls.run()
+                    want = list(sa_model[cname])
                 else:
+                    # the server's own actions, then 'default' (it is the
+                    # default server), then 'all'; each in registration order
                     cls.run(ssrv.Server.default)
-                want = list(sa_model[cname])
+                    want = [kk + (sc,) for sc in ('srv', 'default')
+                            for kk in sa_model[cname].get(sc, {})] + \
+                        list(sa_model[cname].get('all', {}))
                 bump('registry-runs')
                 if sa_calls != want:
                     viol.add('C18-4', f'{cname}-actions',
